@@ -140,6 +140,10 @@ type LockEngine struct {
 	inflight map[*ssa.Function]bool
 	cache    map[*ssa.Function]*LockAn
 	MaxDepth int
+
+	analyzing map[*ssa.Function]bool
+	sites     map[*ssa.Function][]callSite
+	escapes   map[*ssa.Function]bool
 }
 
 func NewLockEngine(p *Prog) *LockEngine {
@@ -153,6 +157,7 @@ type LockAn struct {
 	def map[ssa.Instruction][]LockOp // effect of a defer when it runs
 
 	transferFn func(b *ssa.BasicBlock, s lockset, upto int) lockset
+	Entry      lockset // locks every caller holds (unexported helper)
 }
 
 func inModule(f *ssa.Function) bool {
@@ -305,12 +310,118 @@ func (le *LockEngine) Analyze(f *ssa.Function) *LockAn {
 	if la, ok := le.cache[f]; ok {
 		return la
 	}
-	la := le.analyze(f, 0)
+	if le.analyzing == nil {
+		le.analyzing = map[*ssa.Function]bool{}
+	}
+	if le.analyzing[f] {
+		return le.analyzeEntry(f, 0, nil)
+	}
+	le.analyzing[f] = true
+	entry := le.entryLocks(f)
+	la := le.analyzeEntry(f, 0, entry)
+	la.Entry = entry
+	delete(le.analyzing, f)
 	le.cache[f] = la
 	return la
 }
 
+// callSites indexes the static call sites of every module function, and which
+// functions are used as values (address taken).
+type callSite struct {
+	caller *ssa.Function
+	ci     *CallInfo
+}
+
+func (le *LockEngine) buildCallIndex() {
+	le.sites = map[*ssa.Function][]callSite{}
+	le.escapes = map[*ssa.Function]bool{}
+	for _, f := range le.P.AllModuleFuncs() {
+		eachInstr(f, func(b *ssa.BasicBlock, i int, in ssa.Instruction) {
+			ci := callInfo(in, b, i)
+			for _, op := range in.Operands(nil) {
+				if op == nil || *op == nil {
+					continue
+				}
+				if g, ok := (*op).(*ssa.Function); ok {
+					if ci != nil && ci.Common.Value == ssa.Value(g) {
+						continue // the callee position
+					}
+					le.escapes[g] = true
+				}
+				if mc, ok := (*op).(*ssa.MakeClosure); ok {
+					if g, ok := mc.Fn.(*ssa.Function); ok && strings.HasSuffix(g.Name(), "$bound") {
+						if fo, ok := g.Object().(*types.Func); ok {
+							if real := f.Prog.FuncValue(fo); real != nil {
+								le.escapes[real] = true
+							}
+						}
+					}
+				}
+			}
+			if ci != nil && ci.Static != nil && inModule(ci.Static) {
+				le.sites[ci.Static] = append(le.sites[ci.Static], callSite{f, ci})
+			}
+		})
+	}
+}
+
+// entryLocks: locks held at every call site of an unexported, non-escaping
+// function, expressed over the callee's parameters ("the caller holds the
+// lock" idiom of *Locked helpers).
+func (le *LockEngine) entryLocks(f *ssa.Function) lockset {
+	if f.Parent() != nil || f.Object() == nil || f.Object().Exported() {
+		return nil
+	}
+	if le.sites == nil {
+		le.buildCallIndex()
+	}
+	if le.escapes[f] {
+		return nil
+	}
+	sites := le.sites[f]
+	if len(sites) == 0 {
+		return nil
+	}
+	var acc lockset
+	first := true
+	for _, s := range sites {
+		if s.caller == f {
+			continue // recursion inherits
+		}
+		if s.ci.Kind != "call" {
+			return nil // go / defer: the caller's locks are not held when it runs
+		}
+		held := le.Analyze(s.caller).HeldBefore(s.ci.Instr)
+		tr := lockset{}
+		args := s.ci.Common.Args
+		for k, m := range held {
+			for i, p := range f.Params {
+				if i >= len(args) {
+					break
+				}
+				ak := keyP(args[i])
+				if k == ak || strings.HasPrefix(k, ak+".") {
+					tr["param:"+p.Name()+k[len(ak):]] = m
+				}
+			}
+		}
+		if first {
+			acc, first = tr, false
+		} else {
+			acc = meet(acc, tr)
+		}
+	}
+	if first || len(acc) == 0 {
+		return nil
+	}
+	return acc
+}
+
 func (le *LockEngine) analyze(f *ssa.Function, depth int) *LockAn {
+	return le.analyzeEntry(f, depth, nil)
+}
+
+func (le *LockEngine) analyzeEntry(f *ssa.Function, depth int, entry lockset) *LockAn {
 	la := &LockAn{Fn: f, in: map[*ssa.BasicBlock]lockset{}, ops: map[ssa.Instruction][]LockOp{}, def: map[ssa.Instruction][]LockOp{}}
 	if len(f.Blocks) == 0 {
 		return la
@@ -361,6 +472,9 @@ func (le *LockEngine) analyze(f *ssa.Function, depth int) *LockAn {
 		return s
 	}
 	la.in[f.Blocks[0]] = lockset{}
+	for k, m := range entry {
+		la.in[f.Blocks[0]][k] = m
+	}
 	changed := true
 	for iter := 0; changed && iter < 100; iter++ {
 		changed = false
